@@ -217,6 +217,46 @@ void h_selector_send(void)
   V_CANARY("selectors sent");
 }
 
+
+/* ================= transmit(): code-length tables (C02 strict well-formedness: start value and every delta step within 1..20; C01) ================= */
+#ifndef TS_AS
+#define TS_AS 3         /* symbols per table in the stand-in block */
+#define TS_LMAX 6       /* code lengths 1..TS_LMAX here (bounds the number of delta steps) */
+#endif
+void h_tables_send(void)
+{
+  struct es_standin *s = &W;
+  V_IN(unsigned, pad);
+  V_IN_ARR(uint8_t, l0, TS_AS);
+  V_IN_ARR(uint8_t, l1, TS_AS);
+  uint32_t out[8]; uint32_t *p = out; uint64_t b = 0; unsigned k = 0, t, v, i, as = TS_AS;
+  V_ASSUME(pad <= 3);
+  for (i = 0; i < 8; i++) out[i] = 0;
+  for (i = 0; i < TS_AS; i++) { V_ASSUME(l0[i] >= 1 && l0[i] <= TS_LMAX && l1[i] >= 1 && l1[i] <= TS_LMAX); s->u.s.length[0][i] = l0[i]; s->u.s.length[1][i] = l1[i]; }
+  s->u.s.num_trees = 2; s->u.s.tmap_new2old[0] = 0; s->u.s.tmap_new2old[1] = 1; s->u.s.tree_pad = pad;
+#include "src/extract/tables_send.inc"
+  /* read the bits back with the strict decoder of bzip2 1.0.x: 5-bit start value, then per symbol: while next bit is 1, next bit 0 => +1, 1 => -1; range 1..20 checked at every step */
+  unsigned total = 32 * (unsigned)(p - out) + k, pos = 0; int ok = 1, inrange = 1;
+  uint8_t bits[256]; for (i = 0; i < 256; i++) bits[i] = 0;
+  for (i = 0; i < 256; i++) if (i < total) { unsigned w = i / 32; bits[i] = (w < (unsigned)(p - out)) ? (ntohl(out[w]) >> (31 - i % 32)) & 1u : (unsigned)((b >> (k - 1 - (i - 32 * (unsigned)(p - out)))) & 1u); }
+  for (t = 0; t < 2; t++) {
+    int cur = 0; unsigned j; for (j = 0; j < 5; j++) cur = (cur << 1) | bits[pos < 255 ? pos++ : 255];
+    for (v = 0; v < TS_AS; v++) {
+      unsigned guard;
+      for (guard = 0; guard < 2 * TS_LMAX + 8; guard++) {
+        if (cur < 1 || cur > 20) inrange = 0;
+        if (bits[pos < 255 ? pos++ : 255] == 0) break;
+        cur += bits[pos < 255 ? pos++ : 255] ? -1 : 1;
+      }
+      if (cur != (int)(t == 0 ? l0[v] : l1[v])) ok = 0;
+    }
+  }
+  V_ASSERT(inrange, "tables: the start value and every intermediate code length stay within 1..20 (strict bzip2 1.0.x rule), padding steps included");
+  V_ASSERT(ok, "tables: decoding the transmitted bits yields exactly the code lengths of both tables");
+  V_ASSERT(pos == total, "tables: nothing else is appended");
+  V_CANARY("tables sent");
+}
+
 #ifdef VERIF_REPLAY
 int main(void) { HARNESS(); puts("REPLAY-PASS"); return 0; }
 #endif
